@@ -10,7 +10,8 @@ SPEC = os.path.join(VERIF, "spec")
 WORK = os.path.join(VERIF, "work")
 HARNESS = os.path.join(VERIF, "harness")
 RUNNER = os.path.join(HARNESS, "target", "release", "tera-verif-harness")
-REPO = "/repo"
+# the tree under test: /repo unless VERIF_REPO (or, inside `vp run --with-repo`, VP_RUN_REPO) names another copy
+REPO = os.environ.get("VERIF_REPO") or os.environ.get("VP_RUN_REPO") or "/repo"
 NCPU = os.cpu_count() or 4
 
 
@@ -43,6 +44,12 @@ def ensure_harness(bins=()):
     lock = os.path.join(HARNESS, "Cargo.lock")
     if not os.path.exists(lock):
         shutil.copy(os.path.join(REPO, "Cargo.lock"), lock)
+    # the manifest names the tree under test; it is generated from Cargo.toml.in
+    tmpl = open(os.path.join(HARNESS, "Cargo.toml.in")).read().replace("@REPO@", REPO)
+    mf = os.path.join(HARNESS, "Cargo.toml")
+    if not os.path.exists(mf) or open(mf).read() != tmpl:
+        with open(mf, "w") as f:
+            f.write(tmpl)
     p = subprocess.run(["cargo", "build", "--release", "--offline", "--bins"], cwd=HARNESS, env=env,
                        stdout=subprocess.PIPE, stderr=subprocess.STDOUT, text=True)
     if p.returncode != 0:
